@@ -793,6 +793,19 @@ Proof. destruct b; reflexivity. Qed.
 Lemma b2z_truth_b2z b : b2z (truth (b2z b)) = b2z b.
 Proof. destruct b; reflexivity. Qed.
 
+(* the shapes left by [IOr] / [IAnd] / [ICond] / [SIf] once both sides are evaluated *)
+Lemma or_ok (a b : bool) :
+  (if a then Ok 1 else Ok (b2z b)) = Ok (b2z (a || b)) :> result Z.
+Proof. destruct a; reflexivity. Qed.
+Lemma and_ok (a b : bool) :
+  (if a then Ok (b2z b) else Ok 0) = Ok (b2z (a && b)) :> result Z.
+Proof. destruct a; reflexivity. Qed.
+Lemma if_ok {A} (b : bool) (x y : A) :
+  (if b then Ok x else Ok y) = Ok (if b then x else y).
+Proof. destruct b; reflexivity. Qed.
+Lemma if_same {A} (b : bool) (x : A) : (if b then x else x) = x.
+Proof. destruct b; reflexivity. Qed.
+
 (* ---- the loop rule ---- *)
 
 Section LoopRule.
@@ -891,8 +904,31 @@ Ltac zb1 :=
 Ltac zb := repeat zb1.
 
 (* run the interpreter as far as the symbolic data allows *)
-Ltac mc_step := cbn; rewrite ?truth_b2z, ?b2z_truth_b2z.
+Ltac mc_step := cbn; rewrite ?truth_b2z, ?b2z_truth_b2z, ?or_ok, ?and_ok.
 Ltac mc := repeat (progress (mc_step; zb)).
+
+(* state merging after a conditional whose condition stays symbolic:
+   [if b then C[x] else C[y]]  ~>  [C[if b then x else y]]  (anti-unification of the
+   two branches), so that the execution continues on one state instead of two *)
+Ltac merge_terms b A B :=
+  lazymatch A with
+  | B => A
+  | ?f ?x =>
+      lazymatch B with
+      | ?g ?y =>
+          let fg := merge_terms b f g in
+          let xy := merge_terms b x y in
+          constr:(fg xy)
+      | _ => constr:(if b then A else B)
+      end
+  | _ => constr:(if b then A else B)
+  end.
+Ltac merge_if :=
+  match goal with
+  | |- context[if ?b then Ok ?A else Ok ?B] =>
+      let t := merge_terms b A B in
+      replace (if b then Ok A else Ok B) with (Ok t) by (destruct b; reflexivity)
+  end.
 
 (* states as literal records: [set_i (set_i st "x" a) "y" b] ~> [{| s_i := [...]; ... |}] *)
 Ltac norm_state :=
